@@ -2,6 +2,7 @@ package gw
 
 import (
 	"bytes"
+	"crypto/tls"
 	"fmt"
 	"net"
 	"os"
@@ -95,6 +96,10 @@ func (c *Config) Args(port int, health string) []string {
 		a = append(a, "--event-filter", c.EventFilter)
 	}
 	a = append(a, c.ExtraArgs...)
+	if c.Backend != "" {
+		a = append(a, c.Backend)
+		return append(a, c.BackendArgs...)
+	}
 	a = append(a, "posix")
 	if c.Versioning {
 		a = append(a, "--versioning-dir", c.SB.Ver)
@@ -130,7 +135,7 @@ func StartProc(c Config) (*Proc, error) {
 		procCounter++
 		p := &Proc{Cfg: c, Addr: fmt.Sprintf("127.0.0.1:%d", port), exited: make(chan struct{}),
 			Health: fmt.Sprintf("%s-%d-%d", HealthPath, os.Getpid(), procCounter)}
-		p.T = &s3c.TCP{Addr: p.Addr}
+		p.T = &s3c.TCP{Addr: p.Addr, TLS: c.TLSHealth}
 		cmd := exec.Command(bin, c.Args(port, p.Health)...)
 		cmd.Dir = c.SB.Area
 		cmd.Env = []string{"PATH=/usr/bin:/bin", "HOME=" + c.SB.Area,
@@ -174,7 +179,13 @@ func StartProc(c Config) (*Proc, error) {
 
 // Healthy probes the unauthenticated health endpoint.
 func (p *Proc) Healthy() bool {
-	c, err := net.DialTimeout("tcp", p.Addr, time.Second)
+	var c net.Conn
+	var err error
+	if p.Cfg.TLSHealth {
+		c, err = tls.DialWithDialer(&net.Dialer{Timeout: time.Second}, "tcp", p.Addr, &tls.Config{InsecureSkipVerify: true})
+	} else {
+		c, err = net.DialTimeout("tcp", p.Addr, time.Second)
+	}
 	if err != nil {
 		return false
 	}
